@@ -217,7 +217,7 @@ pub fn check_conformance(prop: &'static str, obs: &Obs, preds: &[Option<Vec<PPar
     if harness_panic(obs, rep) {
         return false;
     }
-    let mut fail = |sig: &str, what: String, rep: &mut Report| {
+    let fail = |sig: &str, what: String, rep: &mut Report| {
         rep.violations.push(viol(prop, format!("{} {}", prop, sig), what, d()));
     };
     if let Outcome::Panic { file, line, msg } = &obs.outcome {
